@@ -123,45 +123,48 @@ func propC18rest(a *Analysis, r *Registry, b *B) {
 		if fn == nil {
 			continue
 		}
-		fc := X.FCFor(fn)
 		nOut, nOld := 0, 0
 		paired := true
-		fc.Ctx.Instrs(func(in ssa.Instruction) {
-			st, ok := in.(*ssa.Store)
-			if !ok {
-				return
-			}
-			fa, ok := st.Addr.(*ssa.FieldAddr)
-			if !ok || X.typeName(fa.X.Type()) != "listSubgraphNode" {
-				return
-			}
-			fname2 := fa.X.Type().Underlying().(*types.Pointer).Elem().Underlying().(*types.Struct).Field(fa.Field).Name()
-			if _, isApp := st.Val.(*ssa.Call); !isApp {
-				return
-			}
-			other := map[string]string{"out": "oldEdges", "oldEdges": "out"}[fname2]
-			if other == "" {
-				return
-			}
-			if fname2 == "out" {
-				nOut++
-			} else {
-				nOld++
-			}
-			found := false
-			for _, in2 := range st.Block().Instrs {
-				if st2, ok := in2.(*ssa.Store); ok {
-					if fa2, ok := st2.Addr.(*ssa.FieldAddr); ok && fc.Val(fa2.X).Equal(fc.Val(fa.X)) {
-						if fa2.X.Type().Underlying().(*types.Pointer).Elem().Underlying().(*types.Struct).Field(fa2.Field).Name() == other {
-							found = true
+		// the two appends may be made here or by a helper that receives the node
+		for _, fc := range X.FCFor(fn).BoundCallees(1) {
+			fc := fc
+			fc.Ctx.Instrs(func(in ssa.Instruction) {
+				st, ok := in.(*ssa.Store)
+				if !ok {
+					return
+				}
+				fa, ok := st.Addr.(*ssa.FieldAddr)
+				if !ok || X.typeName(fa.X.Type()) != "listSubgraphNode" {
+					return
+				}
+				fname2 := fa.X.Type().Underlying().(*types.Pointer).Elem().Underlying().(*types.Struct).Field(fa.Field).Name()
+				if _, isApp := st.Val.(*ssa.Call); !isApp {
+					return
+				}
+				other := map[string]string{"out": "oldEdges", "oldEdges": "out"}[fname2]
+				if other == "" {
+					return
+				}
+				if fname2 == "out" {
+					nOut++
+				} else {
+					nOld++
+				}
+				found := false
+				for _, in2 := range st.Block().Instrs {
+					if st2, ok := in2.(*ssa.Store); ok {
+						if fa2, ok := st2.Addr.(*ssa.FieldAddr); ok && fc.Val(fa2.X).Equal(fc.Val(fa.X)) {
+							if fa2.X.Type().Underlying().(*types.Pointer).Elem().Underlying().(*types.Struct).Field(fa2.Field).Name() == other {
+								found = true
+							}
 						}
 					}
 				}
-			}
-			if !found {
-				paired = false
-			}
-		})
+				if !found {
+					paired = false
+				}
+			})
+		}
 		if paired && nOut == 1 && nOld == 1 {
 			r.OK("C-pair lock-step", fname+"/out+oldEdges", b.pos(fn), "every path that appends a new edge also appends its old edge index, on the same node")
 		} else {
